@@ -74,6 +74,14 @@ CLAIMED['C06'] = ('Coq theorems over Model/Crash.v: interrupt half on the serial
          'PARTIAL proof: (interrupt) if an action raises KeyboardInterrupt/SystemExit the trace is pre ++ [EExecute k; EClose; teardowns], every success in pre was saved before, k is neither saved nor reported, and on the abstract map exactly the saved tasks gain records; every non-fuel stop flushes the DB once; (kill) every crash state of JsonDB.dump is old / new / proper prefix (refused by _load under the J-prefix oracle), sqlite is old or new (atomic commit trusted), for the byte-level dbm.dumb model each key reads old / new / absent / torn / index unreadable and well-formedness is preserved across any number of killed sessions.  The on-disk behaviour of dbm.dumb/sqlite3/the kernel (syscall atomicity, journal recovery, undecodable records) is swept, not proved',
          'trusted: Coq kernel; models tied by 66 (quick) / 948 (thorough) interrupt runs compared with Runner.v, 202 / 543 strace kill points judged by the soundness oracle on the next run, simulated torn writes, dbm.dumb step model vs the real module; JSON decoder oracles (J_prefix, R_prefix, R_extra); each syscall atomic and in program order under SIGKILL',
          'DESIGN.md 5-C06')
+CLAIMED['C09'] = ('Coq invariant proofs over Model/Dispatch.v + Runner.v (final reports follow the reachability order, hence nothing on a cycle is ever executed or finished; exit code 3 only through the two cycle diagnostics after close + teardowns) + correspondence on random and exhaustive small (cyclic) graphs under the deterministic scheduler + cyclic dodo modules through the CLI',
+         'PARTIAL proof: (safety half, serial runner, any task table incl. dynamic calc_dep additions, any oracles/fuel) a task that reaches itself through task_dep / implicit file / calc_dep edges (setup edges: oracle only) is never executed and never reported done/skipped; a task is finished only after everything reachable from it; exit code 3 is returned exactly by the InvalidDodoFile paths (cycle found on the ancestor chain, or hold-on while nothing runs) and only after the DB was closed and teardowns ran.  NOT PROVED: the liveness half (a run over an acyclic finite closure ends with every task final within a fuel bound; every cycle is diagnosed rather than deadlocking) -- decided by correspondence + oracle only (hang = exit 98 under the deterministic scheduler, which detects a main thread blocked with nothing executing), and the parallel runners are covered by correspondence only',
+         'trusted: Coq kernel; hand model tied by the run-family correspondence (runlib.py deterministic scheduler); fuel: StopFuel (exit 99) never observed on the implementation side is checked by the comparison itself',
+         'DESIGN.md 5-C09')
+CLAIMED['C20'] = ('Coq theorems over Model/Introspect.v on top of Status.v/History.v/Commands.v/Clean.v (frame theorems for list/info/status/clean --dry-run; list --status letter = the decision of run; info verdict/reasons) + correspondence through DoitMain on 3 backends with DB dumps and file-system snapshots before/after',
+         'proof: list (with or without --status/--deps), info and clean --dry-run leave every DB record and every file unchanged for every task table/DB/file system (the one documented exception -- uptodate callables with side effects -- is witnessed); the letter of list --status and the verdict of info equal the decision the next run takes on the merged definition (calc_dep file_dep included) -- for info only when every file dependency exists (C20_info_agrees_refuted: KNOWN FINDING info-status-differs-missing-file-dep); info reasons are exactly the changed/missing items.  Only the file_dep part of calc_dep results is modelled',
+         'trusted: Coq kernel; hand model tied by 548 (quick) / 4056 (thorough) command runs through DoitMain on json/dbm/sqlite3; md5/uptodate-callable oracles',
+         'DESIGN.md 5-C20')
 NOT_YET = {}
 
 def main():
